@@ -161,6 +161,8 @@ def pts_malformed(tier):
             pts.append((s, 2, 2, hi))
         for blen in (3, 4, 8):
             pts.append((s, blen, 0, 0))
+        for blen in (3, 4, 8, 16):
+            pts.append((s, blen, -1, 0))
     return pts
 
 
@@ -169,6 +171,23 @@ def run_malformed(ctx, pt):
     s, blen, ln, hi = pt
     pad = make(s, 8 * blen)
     valid = PS.valid_pkcs7 if s == 'pkcs7' else PS.valid_x923
+    if ln == -1:
+        # input shorter than the pad it announces (not even one block): malformed in every reading of the schemes
+        alpha = sorted({0, 1, 2, 3, blen - 1, blen})
+        for n in range(1, blen):
+            for t in itertools.product(alpha, repeat=min(n, 3)):
+                c = (bytes(t[:1]) * (n - min(n, 3))) + bytes(t)
+                if not (len(c) < c[-1] <= blen):
+                    continue
+                try:
+                    ctx.calls += 1
+                    r = ('ok', pad.remove(c))
+                except PaddingError:
+                    r = ('PaddingError',)
+                except Exception as e:
+                    r = ('exc', type(e).__name__)
+                ctx.eq('C09/%s/remove-malformed-accepted/input-shorter-than-its-pad' % s, r, ('PaddingError',))
+        return
     if ln:
         cases = [bytes([hi])] if ln == 1 else [bytes([hi, lo]) for lo in range(256)]
     else:
@@ -333,7 +352,7 @@ def subchecks():
         Sub('interleaved-objects', pts_inter, run_inter, engine='H',
             bound='every ordered pair of 12 pad configurations (4 BLAKE digest sizes, MD/SHA with both word sizes, PKCS#7, X9.23, ISO, zero): A created, B created and used, then A used; blocks and counters vs the specification'),
         Sub('malformed', pts_malformed, run_malformed, engine='D',
-            bound='PKCS#7 and X9.23 remove on every whole-block string for block length 1 (1-2 blocks) and 2 (1 block: all 65536), and on every string over {0,1,2,3,blen-1,blen,blen+1,255} for block length 3 (1-2 blocks), 4 (1 block) and a product family for 8'),
+            bound='PKCS#7 and X9.23 remove on every whole-block string for block length 1 (1-2 blocks) and 2 (1 block: all 65536), and on every string over {0,1,2,3,blen-1,blen,blen+1,255} for block length 3 (1-2 blocks), 4 (1 block) and a product family for 8; inputs shorter than the pad length they announce (block lengths 3, 4, 8, 16)'),
         hsub('histories', systems, lambda tier: 4 if tier == 'thorough' else 3,
              bound='one pad object per scheme/geometry; events: continuation of 0/1/2 blocks, final of 0/half/1 block, two refused requests, calls after the final block, two calls made before either is consumed; all histories to depth 3 (thorough 4), deduplicated by (bitcnt,padcnt,padflag)'),
     ]
@@ -342,4 +361,4 @@ def subchecks():
 ASSUMPTIONS = ['empty message under none/zero padding not judged (one block or none is not fixed by the statement)',
                'bit lengths are only given to the bit-granular schemes (zero, ISO 7816-4, MD, SHA, BLAKE)',
                'padcnt judged for zero/ISO/PKCS#7/X9.23 only (the length-strengthening schemes do not define it)',
-               'malformed-padding inputs are whole blocks; exception types other than PaddingError count as a violation only for malformed PKCS#7/X9.23 input']
+               'malformed-padding inputs are whole blocks, or shorter than the pad length their last byte announces; exception types other than PaddingError count as a violation only for malformed PKCS#7/X9.23 input']
